@@ -14,99 +14,10 @@ package sqlittle
 //@ func (*db.Database).Schema
 //@   props C06 C10
 //@   trusted schema construction is specified under C10
-//@   modifies * -M:S_db_KeyCol hdr_valid hdr_ps hdr_cookie jr_pos peer_state
+//@   modifies * -M:S_db_KeyCol -M:S_sqlittle_columnIndex hdr_valid hdr_ps hdr_cookie jr_pos peer_state
 //@   requires db != nil
 //@   requires [locked] lk_shared
 //@   trusted-ensures err == nil ==> r0 != nil
-
-//@ func sqlittle.select_
-//@   props C06 C01
-//@   trusted row mapping is specified under C01 (pending)
-//@   may-panic
-//@   modifies * -M:S_db_KeyCol hdr_valid hdr_ps hdr_cookie jr_pos peer_state
-//@   requires [dbnn] db != nil
-//@   requires [snn] s != nil
-//@   requires [locked] lk_shared
-
-//@ func sqlittle.selectNonRowid
-//@   props C06 C01
-//@   trusted row mapping is specified under C01 (pending)
-//@   may-panic
-//@   modifies * -M:S_db_KeyCol hdr_valid hdr_ps hdr_cookie jr_pos peer_state
-//@   requires [dbnn] db != nil
-//@   requires [snn] s != nil
-//@   requires [locked] lk_shared
-
-//@ func sqlittle.selectRowid
-//@   props C06 C04
-//@   trusted
-//@   modifies * -M:S_db_KeyCol hdr_valid hdr_ps hdr_cookie jr_pos peer_state
-//@   requires [dbnn] db != nil
-//@   requires [snn] s != nil
-//@   requires [locked] lk_shared
-
-//@ func sqlittle.indexedSelect
-//@   props C06 C02
-//@   trusted
-//@   may-panic
-//@   modifies * -M:S_db_KeyCol hdr_valid hdr_ps hdr_cookie jr_pos peer_state
-//@   requires [dbnn] db != nil
-//@   requires [snn] schema != nil
-//@   requires [inn] index != nil
-//@   requires [locked] lk_shared
-
-//@ func sqlittle.indexedSelectNonRowid
-//@   props C06 C02
-//@   trusted
-//@   may-panic
-//@   modifies * -M:S_db_KeyCol hdr_valid hdr_ps hdr_cookie jr_pos peer_state
-//@   requires [dbnn] db != nil
-//@   requires [snn] schema != nil
-//@   requires [inn] index != nil
-//@   requires [locked] lk_shared
-
-//@ func sqlittle.indexedSelectEq
-//@   props C06 C03
-//@   trusted
-//@   may-panic
-//@   modifies * -M:S_db_KeyCol hdr_valid hdr_ps hdr_cookie jr_pos peer_state
-//@   requires [dbnn] db != nil
-//@   requires [snn] schema != nil
-//@   requires [inn] index != nil
-//@   requires [locked] lk_shared
-
-//@ func sqlittle.indexedSelectEqNonRowid
-//@   props C06 C03
-//@   trusted
-//@   may-panic
-//@   modifies * -M:S_db_KeyCol hdr_valid hdr_ps hdr_cookie jr_pos peer_state
-//@   requires [dbnn] db != nil
-//@   requires [snn] schema != nil
-//@   requires [inn] index != nil
-//@   requires [locked] lk_shared
-
-//@ func sqlittle.pkSelect
-//@   props C06 C03
-//@   trusted
-//@   may-panic
-//@   modifies * -M:S_db_KeyCol hdr_valid hdr_ps hdr_cookie jr_pos peer_state
-//@   requires [dbnn] db != nil
-//@   requires [snn] s != nil
-//@   requires [locked] lk_shared
-
-//@ func sqlittle.pkSelectNonRowid
-//@   props C06 C03
-//@   trusted
-//@   may-panic
-//@   modifies * -M:S_db_KeyCol hdr_valid hdr_ps hdr_cookie jr_pos peer_state
-//@   requires [dbnn] db != nil
-//@   requires [snn] s != nil
-//@   requires [locked] lk_shared
-
-//@ func sqlittle.asDbKey
-//@   props C03
-//@   trusted key conversion is specified under C03 (pending)
-//@   pure
 
 //@ func (*db.Schema).NamedIndex
 //@   props C10
@@ -117,46 +28,347 @@ package sqlittle
 
 //@ func (*sqlittle.DB).SelectDone
 //@   props C06 C17
-//@   modifies * -M:S_db_KeyCol lk_shared lk_pending peer_state cc_now hdr_valid hdr_ps hdr_cookie jr_pos
-//@   requires db != nil && !lk_shared && !lk_pending
+//@   modifies * -M:S_sqlittle_columnIndex lk_shared lk_pending peer_state cc_now hdr_valid hdr_ps hdr_cookie jr_pos
+//@   requires db != nil && !lk_shared && !lk_pending && cb != nil
 //@   ensures [released] !lk_shared && !lk_pending
 //@   ensures [yield] peer_stable && old(peer_state) >= 3 ==> r0 != nil
 //@   ensures-on-panic [released] !lk_shared && !lk_pending
 
 //@ func (*sqlittle.DB).SelectRowid
 //@   props C06
-//@   modifies * -M:S_db_KeyCol lk_shared lk_pending peer_state cc_now hdr_valid hdr_ps hdr_cookie jr_pos
+//@   modifies * -M:S_sqlittle_columnIndex lk_shared lk_pending peer_state cc_now hdr_valid hdr_ps hdr_cookie jr_pos
 //@   requires db != nil && !lk_shared && !lk_pending
 //@   ensures [released] !lk_shared && !lk_pending
 //@   ensures [yield] peer_stable && old(peer_state) >= 3 ==> r1 != nil
 
 //@ func (*sqlittle.DB).IndexedSelect
 //@   props C06
-//@   modifies * -M:S_db_KeyCol lk_shared lk_pending peer_state cc_now hdr_valid hdr_ps hdr_cookie jr_pos
-//@   requires db != nil && !lk_shared && !lk_pending
+//@   modifies * -M:S_sqlittle_columnIndex lk_shared lk_pending peer_state cc_now hdr_valid hdr_ps hdr_cookie jr_pos
+//@   requires db != nil && !lk_shared && !lk_pending && cb != nil
 //@   ensures [released] !lk_shared && !lk_pending
 //@   ensures [yield] peer_stable && old(peer_state) >= 3 ==> r0 != nil
 //@   ensures-on-panic [released] !lk_shared && !lk_pending
 
 //@ func (*sqlittle.DB).IndexedSelectEq
 //@   props C06
-//@   modifies * -M:S_db_KeyCol lk_shared lk_pending peer_state cc_now hdr_valid hdr_ps hdr_cookie jr_pos
-//@   requires db != nil && !lk_shared && !lk_pending
+//@   modifies * -M:S_sqlittle_columnIndex lk_shared lk_pending peer_state cc_now hdr_valid hdr_ps hdr_cookie jr_pos
+//@   requires db != nil && !lk_shared && !lk_pending && cb != nil
 //@   ensures [released] !lk_shared && !lk_pending
 //@   ensures [yield] peer_stable && old(peer_state) >= 3 ==> r0 != nil
 //@   ensures-on-panic [released] !lk_shared && !lk_pending
 
 //@ func (*sqlittle.DB).PKSelect
 //@   props C06
-//@   modifies * -M:S_db_KeyCol lk_shared lk_pending peer_state cc_now hdr_valid hdr_ps hdr_cookie jr_pos
-//@   requires db != nil && !lk_shared && !lk_pending
+//@   modifies * -M:S_sqlittle_columnIndex lk_shared lk_pending peer_state cc_now hdr_valid hdr_ps hdr_cookie jr_pos
+//@   requires db != nil && !lk_shared && !lk_pending && cb != nil
 //@   ensures [released] !lk_shared && !lk_pending
 //@   ensures [yield] peer_stable && old(peer_state) >= 3 ==> r0 != nil
 //@   ensures-on-panic [released] !lk_shared && !lk_pending
 
 //@ func (*sqlittle.DB).Columns
 //@   props C06
-//@   modifies * -M:S_db_KeyCol lk_shared lk_pending peer_state cc_now hdr_valid hdr_ps hdr_cookie jr_pos
+//@   modifies * -M:S_sqlittle_columnIndex lk_shared lk_pending peer_state cc_now hdr_valid hdr_ps hdr_cookie jr_pos
 //@   requires db != nil && !lk_shared && !lk_pending
 //@   ensures [released] !lk_shared && !lk_pending
 //@   ensures [yield] peer_stable && old(peer_state) >= 3 ==> r1 != nil
+
+// ---------------------------------------------------------------------------------------
+// Record -> row mapping (C01).
+
+//@ macro CIS_OK(cis) = (forall qc int :: 0 <= qc && qc < len(cis) ==> cis[qc].rowid || (cis[qc].col != nil && cis[qc].rowIndex >= 0))
+
+// rowof(row, rowid, cis, rec): provenance token: row is what toRow returned for (rowid, cis, rec).
+// rowfor(row, rowid, pl): row was mapped from the decoded record of cell payload pl, with rowid.
+//@ smt rowtokens
+//@ (declare-fun rowof (Slice (_ BitVec 64) Slice Slice) Bool)
+//@ (declare-fun rowfor (Slice (_ BitVec 64) S_db_cellPayload) Bool)
+//@ (assert (forall ((row Slice) (rowid (_ BitVec 64)) (cis Slice) (rec Slice) (pl S_db_cellPayload)) (! (=> (and (rowof row rowid cis rec) (recof rec pl)) (rowfor row rowid pl)) :pattern ((rowof row rowid cis rec) (recof rec pl)))))
+
+// toRow: column k of the result is the rowid for rowid columns (alias or rowid/oid/_rowid_), else the
+// stored field, else the column DEFAULT when the record is shorter than the column list.
+//@ func sqlittle.toRow
+//@   props C01 C02 C04 C05
+//@   pure
+//@   requires CIS_OK(cis)
+//@   ensures [len] len(result) == len(cis) && fresh(result)
+//@   ensures [rowid] forall k int :: 0 <= k && k < len(cis) && cis[k].rowid ==> result[k] == mkInt64(rowid)
+//@   ensures [default] forall k int :: 0 <= k && k < len(cis) && !cis[k].rowid && len(r) <= cis[k].rowIndex ==> result[k] == cis[k].col.Default
+//@   ensures [field] forall k int :: 0 <= k && k < len(cis) && !cis[k].rowid && len(r) > cis[k].rowIndex ==> result[k] == r[cis[k].rowIndex]
+//@   trusted-ensures [token] rowof(result, rowid, cis, r)
+//@   loop 1 invariant 0 <= $i && $i <= len(cis) && len(row) == len(cis) && fresh(row) && off(row) == 0
+//@   loop 1 invariant forall k int :: 0 <= k && k < $i && cis[k].rowid ==> row[k] == mkInt64(rowid)
+//@   loop 1 invariant forall k int :: 0 <= k && k < $i && !cis[k].rowid && len(r) <= cis[k].rowIndex ==> row[k] == cis[k].col.Default
+//@   loop 1 invariant forall k int :: 0 <= k && k < $i && !cis[k].rowid && len(r) > cis[k].rowIndex ==> row[k] == r[cis[k].rowIndex]
+//@   loop 1 decreases len(cis) - $i
+
+// User-level row callbacks: the row of item `pos` of the scan in progress (table scans: with its
+// rowid; WITHOUT ROWID tables are index trees: rowid 0).
+//@ functype sqlittle.RowDoneCB
+//@   props C01 C17
+//@   opt params=cbrow
+//@   opt results=done
+//@   modifies * -M:S_db_KeyCol -M:S_sqlittle_columnIndex pos halt
+//@   requires [nohalt] !halt
+//@   requires [mode] !viaidx && !vianr
+//@   requires [item] (!ixmode ==> rowfor(cbrow, tb_rowid(cur_tree, pos), tb_payload(cur_tree, pos))) && (ixmode ==> rowfor(cbrow, 0, ix_payload(cur_tree, pos)))
+//@   ensures pos == old(pos) + 1 && (halt <==> done)
+
+//@ functype sqlittle.RowCB
+//@   props C01 C02 C03
+//@   opt params=cbrow
+//@   modifies * -M:S_db_KeyCol -M:S_sqlittle_columnIndex pos halt
+//@   requires [nohalt] !halt
+//@   requires [item] !direct ==> (!ixmode ==> rowfor(cbrow, tb_rowid(cur_tree, pos), tb_payload(cur_tree, pos))) && (ixmode && !viaidx && !vianr ==> rowfor(cbrow, 0, ix_payload(cur_tree, pos)))
+//@   requires [viaindex] !direct && ixmode && viaidx ==> VIAROW(cbrow)
+//@   ensures pos == old(pos) + 1 && !halt
+
+//@ func sqlittle.toColumnIndexRowid
+//@   props C01
+//@   trusted column resolution (strings) pending
+//@   pure
+//@   trusted-ensures err == nil ==> CIS_OK(r0)
+
+//@ func sqlittle.toColumnIndexNonRowid
+//@   props C01
+//@   trusted column resolution (strings) pending
+//@   pure
+//@   trusted-ensures err == nil ==> CIS_OK(r0)
+
+//@ func sqlittle.select_
+//@   ghost-entry direct = false
+//@   ghost-exit direct = old(direct)
+//@   ghost-entry viaidx = false
+//@   ghost-entry vianr = false
+//@   ghost-exit viaidx = old(viaidx)
+//@   ghost-exit vianr = old(vianr)
+//@   props C01 C06 C12 C17
+//@   may-panic
+//@   modifies * -M:S_db_KeyCol -M:S_sqlittle_columnIndex hdr_valid hdr_ps hdr_cookie jr_pos peer_state
+//@   requires [dbnn] db != nil
+//@   requires [snn] s != nil && cb != nil
+//@   requires [locked] lk_shared
+
+//@ func sqlittle.select_$1
+//@   free-requires !direct
+//@   implements functype db.TableScanCB
+//@   free-requires cb != nil && CIS_OK(ci) && !viaidx && !vianr
+
+//@ func sqlittle.selectNonRowid
+//@   ghost-entry direct = false
+//@   ghost-exit direct = old(direct)
+//@   ghost-entry viaidx = false
+//@   ghost-entry vianr = false
+//@   ghost-exit viaidx = old(viaidx)
+//@   ghost-exit vianr = old(vianr)
+//@   props C01 C06 C12 C17
+//@   may-panic
+//@   modifies * -M:S_db_KeyCol -M:S_sqlittle_columnIndex hdr_valid hdr_ps hdr_cookie jr_pos peer_state
+//@   requires [dbnn] db != nil
+//@   requires [snn] s != nil && cb != nil
+//@   requires [locked] lk_shared
+
+//@ func sqlittle.selectNonRowid$1
+//@   free-requires !direct
+//@   implements functype db.RecordCB
+//@   free-requires cb != nil && CIS_OK(ci) && !viaidx && !vianr
+
+//@ func sqlittle.selectRowid
+//@   props C04 C06 C12
+//@   modifies * -M:S_db_KeyCol -M:S_sqlittle_columnIndex hdr_valid hdr_ps hdr_cookie jr_pos peer_state
+//@   requires [dbnn] db != nil
+//@   requires [snn] s != nil
+//@   requires [locked] lk_shared
+
+// Select: the wrapper never asks to stop.
+//@ func (*sqlittle.DB).Select$1
+//@   implements functype sqlittle.RowDoneCB
+//@   free-requires cb != nil
+//@   ensures [nostop] !done
+
+// ---------------------------------------------------------------------------------------
+// Index-ordered selects on rowid tables (C02, C03, C12): every index entry is mapped to the table row
+// whose rowid is the entry's last field. Ghost: viaidx = such a select is in progress, tabroot = root
+// page of the table. pl_rowid(pl): the last field of the decoded index entry pl (an integer).
+//@ ghost viaidx bool
+//@ ghost vianr bool
+//@ ghost direct bool
+//@ ghost tabroot bv64
+//@ smt viaindex
+//@ (declare-fun last_int (Slice) (_ BitVec 64))
+//@ (declare-fun pl_rowid (S_db_cellPayload) (_ BitVec 64))
+//@ (assert (forall ((rec Slice) (pl S_db_cellPayload)) (! (=> (recof rec pl) (= (last_int rec) (pl_rowid pl))) :pattern ((recof rec pl) (last_int rec)))))
+
+// the row handed to the user: mapped from the table row stored under the index entry's rowid
+//@ macro VIARID() = pl_rowid(ix_payload(cur_tree, pos))
+//@ macro VIAROW(row) = ult(tfirst(tabroot, VIARID()), p_hi(tabroot)) && tb_rowid(tabroot, tfirst(tabroot, VIARID())) == VIARID() && rowfor(row, VIARID(), tb_payload(tabroot, tfirst(tabroot, VIARID())))
+
+//@ func sqlittle.indexedSelect
+//@   ghost-entry direct = false
+//@   ghost-exit direct = old(direct)
+//@   props C02 C06 C12
+//@   may-panic
+//@   modifies * -M:S_db_KeyCol -M:S_sqlittle_columnIndex hdr_valid hdr_ps hdr_cookie jr_pos peer_state
+//@   requires [dbnn] db != nil
+//@   requires [snn] schema != nil && cb != nil
+//@   requires [inn] index != nil
+//@   requires [locked] lk_shared
+//@   ghost-entry viaidx = true
+//@   ensures-before-exit [c12] cbErr != nil ==> r0 != nil
+//@   ghost-exit viaidx = old(viaidx)
+//@   ghost-exit tabroot = old(tabroot)
+
+// the per-entry callback: an error of the nested lookup is recorded in cbErr and stops the scan
+//@ func sqlittle.indexedSelect$1
+//@   free-requires !direct
+//@   implements functype db.RecordCB
+//@   uses table_sorted
+//@   closure-ghost tabroot = tab.root
+//@   free-requires cb != nil && tab != nil && CIS_OK(ci) && viaidx && tab.root == tabroot && tree_of(tabroot) == tabroot
+//@   ensures [latch] old(cbErr) != nil ==> cbErr != nil
+//@   ensures [reported] done ==> cbErr != nil
+//@   ghost-exit halt = halt || done
+
+//@ func sqlittle.indexedSelectEq
+//@   ghost-entry direct = false
+//@   ghost-exit direct = old(direct)
+//@   props C03 C06 C12
+//@   may-panic
+//@   modifies * -M:S_db_KeyCol -M:S_sqlittle_columnIndex hdr_valid hdr_ps hdr_cookie jr_pos peer_state
+//@   requires [dbnn] db != nil
+//@   requires [snn] schema != nil && cb != nil
+//@   requires [inn] index != nil
+//@   requires [locked] lk_shared
+//@   requires [key] KEYOK(key)
+//@   ghost-entry viaidx = true
+//@   ensures-before-exit [c12] cbErr != nil ==> r0 != nil
+//@   ghost-exit viaidx = old(viaidx)
+//@   ghost-exit tabroot = old(tabroot)
+
+//@ func sqlittle.indexedSelectEq$1
+//@   free-requires !direct
+//@   implements functype db.RecordCB
+//@   uses table_sorted
+//@   closure-ghost tabroot = tab.root
+//@   free-requires cb != nil && tab != nil && CIS_OK(ci) && viaidx && tab.root == tabroot && tree_of(tabroot) == tabroot
+//@   ensures [latch] old(cbErr) != nil ==> cbErr != nil
+//@   ensures [reported] done ==> cbErr != nil
+//@   ghost-exit halt = halt || done
+
+// setKey: copies the primary-key fields of an index entry into the key; false when the entry is too short
+//@ func sqlittle.setKey
+//@   props C02 C05
+//@   modifies M:S_db_KeyCol
+//@   ensures [bounds] result ==> len(indexes) <= len(key) && (forall k int :: 0 <= k && k < len(indexes) ==> 0 <= indexes[k] && indexes[k] < len(r))
+//@   ensures [copied] result ==> (forall k int :: 0 <= k && k < len(indexes) ==> key[k].V == r[indexes[k]] && key[k].Collate == old(key[k].Collate) && key[k].Desc == old(key[k].Desc))
+//@   ensures [rest] forall k int :: len(indexes) <= k && k < len(key) ==> key[k] == old(key[k])
+//@   loop 1 invariant 0 <= $i && $i <= len(indexes) && len(indexes) <= len(key)
+//@   loop 1 invariant forall k int :: 0 <= k && k < $i ==> 0 <= indexes[k] && indexes[k] < len(r) && key[k].V == r[indexes[k]] && key[k].Collate == old(key[k].Collate) && key[k].Desc == old(key[k].Desc)
+//@   loop 1 invariant forall k int :: $i <= k && k < len(key) ==> key[k] == old(key[k])
+//@   loop 1 decreases len(indexes) - $i
+
+// ---------------------------------------------------------------------------------------
+// Keys (C03): a Go key becomes a typed key carrying each column's direction and collation.
+// Environment facts about the package-level collation table (set up by package db's init):
+//@ macro COLLENV() = (forall qn Str :: map_has_Str(CollateFuncs, qn) ==> map_get_Str_int(CollateFuncs, qn) != 0) && map_has_Str(CollateFuncs, DefaultCollate)
+
+//@ smt keyconv
+//@ (declare-fun map_has_Str (Int Str) Bool)
+//@ (declare-fun map_get_Str_int (Int Str) Int)
+
+//@ func sqlittle.asDbKey
+//@   props C03 C02 C05
+//@   pure
+//@   ensures [len] err == nil ==> len(r0) == len(k) && len(k) <= len(cols) && fresh(r0)
+//@   ensures [toomany] len(k) > len(cols) ==> err != nil
+//@   ensures [flags] err == nil ==> (forall i int :: 0 <= i && i < len(k) ==> (r0[i].Desc <==> cols[i].SortOrder == 1)&& (len(str_lower(cols[i].Collate)) != 0 ==> r0[i].Collate == str_lower(cols[i].Collate)))
+//@   ensures [native] err == nil ==> (forall i int :: 0 <= i && i < len(k) ==> (isNilVal(k[i]) || isInt64(k[i]) || isFloat64(k[i]) || isString(k[i]) || isBytes(k[i]) ==> r0[i].V == k[i]))
+//@   ensures [storable] err == nil ==> (forall i int :: 0 <= i && i < len(k) ==> storable(r0[i].V))
+//@   trusted-ensures [keyok] err == nil ==> KEYOK(r0)
+//@   loop 1 invariant 0 <= $i && $i <= len(k) && len(dbk) == len(k) && fresh(dbk) && off(dbk) == 0 && $i <= len(cols)
+//@   loop 1 invariant [desc] forall j int :: 0 <= j && j < $i ==> (dbk[j].Desc <==> cols[j].SortOrder == 1)
+//@   loop 1 invariant [coll1] forall j int :: 0 <= j && j < $i ==> (len(str_lower(cols[j].Collate)) != 0 ==> dbk[j].Collate == str_lower(cols[j].Collate))
+//@   loop 1 invariant forall j int :: 0 <= j && j < $i ==> (isNilVal(k[j]) || isInt64(k[j]) || isFloat64(k[j]) || isString(k[j]) || isBytes(k[j]) ==> dbk[j].V == k[j])
+//@   loop 1 invariant forall j int :: 0 <= j && j < $i ==> storable(dbk[j].V)
+//@   loop 1 decreases len(k) - $i
+
+// ---------------------------------------------------------------------------------------
+// WITHOUT ROWID variants: the index entry's primary-key fields are copied into a key (setKey) and the
+// row is looked up in the table's own index tree. The parents are verified (locking, error
+// reporting, closure creation); the per-entry closures write the caller-owned key slice, which the
+// component-granular frame of the callback protocol cannot express, so their bodies are not verified
+// (listed as trusted in the evidence).
+//@ func sqlittle.indexedSelectNonRowid
+//@   ghost-entry direct = false
+//@   ghost-exit direct = old(direct)
+//@   props C02 C06 C12
+//@   may-panic
+//@   modifies * -M:S_sqlittle_columnIndex hdr_valid hdr_ps hdr_cookie jr_pos peer_state
+//@   requires [dbnn] db != nil
+//@   requires [snn] schema != nil && cb != nil
+//@   requires [inn] index != nil
+//@   requires [locked] lk_shared
+//@   ghost-entry vianr = true
+//@   ensures-before-exit [c12] cbErr != nil ==> r0 != nil
+//@   ghost-exit vianr = old(vianr)
+
+//@ func sqlittle.indexedSelectNonRowid$1
+//@   trusted writes the parent's key slice (see above)
+//@   implements functype db.RecordCB
+
+//@ func sqlittle.indexedSelectEqNonRowid
+//@   ghost-entry direct = false
+//@   ghost-exit direct = old(direct)
+//@   props C03 C06 C12
+//@   may-panic
+//@   modifies * -M:S_sqlittle_columnIndex hdr_valid hdr_ps hdr_cookie jr_pos peer_state
+//@   requires [dbnn] db != nil
+//@   requires [snn] schema != nil && cb != nil
+//@   requires [inn] index != nil
+//@   requires [locked] lk_shared
+//@   requires [key] KEYOK(key)
+//@   ghost-entry vianr = true
+//@   ensures-before-exit [c12] cbErr != nil ==> r0 != nil
+//@   ghost-exit vianr = old(vianr)
+
+//@ func sqlittle.indexedSelectEqNonRowid$1
+//@   trusted writes the parent's key slice (see above)
+//@   implements functype db.RecordCB
+
+//@ func sqlittle.pkColumns
+//@   props C02 C10
+//@   trusted schema interpretation is specified under C10 (pending)
+//@   modifies * -M:S_db_KeyCol -M:S_sqlittle_columnIndex
+
+// Primary-key selects.
+//@ func sqlittle.pkSelect
+//@   ghost-entry direct = true
+//@   ghost-entry halt = false
+//@   ghost-exit direct = old(direct)
+//@   ghost-exit halt = old(halt)
+//@   ghost-exit pos = old(pos)
+//@   props C03 C04 C06 C12
+//@   may-panic
+//@   modifies * -M:S_db_KeyCol -M:S_sqlittle_columnIndex hdr_valid hdr_ps hdr_cookie jr_pos peer_state
+//@   requires [dbnn] db != nil
+//@   requires [snn] s != nil && cb != nil
+//@   requires [locked] lk_shared
+
+//@ func sqlittle.pkSelectNonRowid
+//@   ghost-entry direct = false
+//@   ghost-exit direct = old(direct)
+//@   ghost-entry viaidx = false
+//@   ghost-entry vianr = false
+//@   ghost-exit viaidx = old(viaidx)
+//@   ghost-exit vianr = old(vianr)
+//@   props C03 C06 C12
+//@   may-panic
+//@   modifies * -M:S_db_KeyCol -M:S_sqlittle_columnIndex hdr_valid hdr_ps hdr_cookie jr_pos peer_state
+//@   requires [dbnn] db != nil
+//@   requires [snn] s != nil && cb != nil
+//@   requires [locked] lk_shared
+
+//@ func sqlittle.pkSelectNonRowid$1
+//@   free-requires !direct
+//@   implements functype db.RecordCB
+//@   free-requires cb != nil && CIS_OK(ci) && !viaidx && !vianr
+//@   ensures [nostop] !done
